@@ -905,20 +905,23 @@ func init() {
 		if x.IsConst() {
 			return FUn(OpFLog2, x)
 		}
-		// contract for x >= 1: case split on k = floor(log2 x) in [0,64]
-		k := p.freshVar("log2k", BV(8))
-		p.Assume(Cmp(OpUle, k, BVC(64, 8)))
-		kv := int(p.Concretize(k))
-		lo := FC(float64(uint64(1) << uint(kv%64)))
-		if kv == 64 {
-			lo = FC(18446744073709551616.0)
+		// contract for x >= 1: case split on k = floor(log2 x) in [0,64], exploring only feasible brackets
+		for kv := 0; kv <= 64; kv++ {
+			lo := FC(float64(uint64(1) << uint(kv%64)))
+			if kv == 64 {
+				lo = FC(18446744073709551616.0)
+			}
+			hi := FC(2 * lo.F)
+			if !p.Fork(And(FCmp(OpFLe, lo, x), FCmp(OpFLt, x, hi))) {
+				continue
+			}
+			r := p.freshVar("log2", FloatSort)
+			p.Assume(And(FCmp(OpFLe, FC(float64(kv)), r), FCmp(OpFLt, r, FC(float64(kv+1)))))
+			p.Assume(Implies(FCmp(OpFEq, x, lo), FCmp(OpFEq, r, FC(float64(kv)))))
+			return r
 		}
-		hi := FC(2 * lo.F)
-		p.Assume(And(FCmp(OpFLe, lo, x), FCmp(OpFLt, x, hi)))
-		r := p.freshVar("log2", FloatSort)
-		p.Assume(And(FCmp(OpFLe, FC(float64(kv)), r), FCmp(OpFLt, r, FC(float64(kv+1)))))
-		p.Assume(Implies(FCmp(OpFEq, x, lo), FCmp(OpFEq, r, FC(float64(kv)))))
-		return r
+		p.unsupported("math.Log2 of a value outside [1, 2^65)")
+		return nil
 	})
 
 	// ----- strconv / strings (concrete only) -----
